@@ -30,6 +30,7 @@ pub struct Layout {
     /// size of the header including optional slots announced by the global flags
     pub header_size: u64,
     /// size of the header without the optional slots
+    #[allow(dead_code)]
     pub base_header_size: u64,
     pub extents: Vec<Extent>,
     /// every top-level header slot: (name, count, offset, element size)
